@@ -1,4 +1,4 @@
-(* Theorems about the Gallina translation of View.ToBytes in types.go (regenerated from the checked tree on
+(* Theorems about the Gallina translation of View.ToBytes in types.go and ID.ToBytes in hotstuff.go (regenerated from the checked tree on
    every run): the bytes a view contributes to every signed and hashed message (timeout and view signatures,
    QuorumCert.ToBytes, Block.ToBytes, TimeoutMsg.ToBytes). *)
 From Coq Require Import String ZArith NArith List Lia ZifyN.
@@ -67,7 +67,38 @@ Proof.
 Qed.
 Print Assumptions C12_gen_View_ToBytes_injective.
 
+(* The code's ID.ToBytes (hotstuff.go): the four bytes a replica id contributes to TimeoutMsg.ToBytes and to
+   the signer lists inside certificate bytes — the wire model's le32, for every id a uint32 can hold. *)
+Theorem C12_gen_ID_ToBytes_is_model :
+  forall i, 0 <= i < 4294967296 ->
+    ID_ToBytes i = Val (map Z.of_N (le32 (Z.to_N i))).
+Proof.
+  intros i Hi. unfold ID_ToBytes. cbn [bind]. unfold go_conv. rewrite wrap_U32 by exact Hi. cbn [bind].
+  unfold go_put_le32, go_zero_array.
+  change (Z.of_nat (length (repeat 0 (Z.to_nat 4))) <? 4) with false. cbv iota.
+  change (skipn 4 (repeat 0 (Z.to_nat 4))) with (@nil Z). rewrite app_nil_r.
+  unfold le32. rewrite <- le_bytes_z_model. rewrite Z2N.id by lia. reflexivity.
+Qed.
+Print Assumptions C12_gen_ID_ToBytes_is_model.
+
+Theorem C12_gen_ID_ToBytes_injective :
+  forall i j, 0 <= i < 4294967296 -> 0 <= j < 4294967296 ->
+    ID_ToBytes i = ID_ToBytes j -> i = j.
+Proof.
+  intros v w Hv Hw H. rewrite !C12_gen_ID_ToBytes_is_model in H by assumption.
+  assert (H' : map Z.of_N (le32 (Z.to_N v)) = map Z.of_N (le32 (Z.to_N w))).
+  { revert H. generalize (map Z.of_N (le32 (Z.to_N v))), (map Z.of_N (le32 (Z.to_N w))).
+    intros a b E. now injection E. }
+  clear H. rename H' into H. apply map_of_N_inj in H. apply le32_inj in H.
+  - apply Z2N.inj in H; lia.
+  - change (2 ^ 32)%N with (Z.to_N 4294967296). apply Z2N.inj_lt; lia.
+  - change (2 ^ 32)%N with (Z.to_N 4294967296). apply Z2N.inj_lt; lia.
+Qed.
+Print Assumptions C12_gen_ID_ToBytes_injective.
+
 (* non-vacuity: a concrete view above 2^32 *)
 Example C12_gen_View_ToBytes_example :
   View_ToBytes 4294967298 = Val [2; 0; 0; 0; 1; 0; 0; 0].
+Proof. vm_compute. reflexivity. Qed.
+Example C12_gen_ID_ToBytes_example : ID_ToBytes 65537 = Val [1; 0; 1; 0].
 Proof. vm_compute. reflexivity. Qed.
